@@ -28,6 +28,7 @@ type verifC10Req struct {
 }
 
 type verifC10Obs struct {
+	Panic                  string      `json:"panic,omitempty"` // the handler panicked
 	BackendCookies         [][2]string `json:"backend_cookies"` // name, value pairs the backend saw, in order
 	ClientSet              []string    `json:"client_set"`      // Set-Cookie header values the client received
 	IssuedValue            string      `json:"issued_value"`
@@ -60,15 +61,25 @@ func verifRunHistory(h http.Handler, cookieName string, reqs []verifC10Req, cur 
 				req.AddCookie(&http.Cookie{Name: cookieName, Value: issued[rq.Use]})
 			}
 		case rq.Use == -2:
-			req.AddCookie(&http.Cookie{Name: cookieName, Value: "made-up-session-id"})
+			// a value the client made up: of any length (the same one throughout a history: one made-up session)
+			req.AddCookie(&http.Cookie{Name: cookieName, Value: []string{"made-up-session-id", "abc", "x", "1234567", "12345678", "0"}[len(reqs)%6]})
 		}
 		mu.Lock()
 		*cur = rq
 		rec := httptest.NewRecorder()
 		req.Header.Set("X-Verif-Index", fmt.Sprint(i))
-		h.ServeHTTP(rec, req)
+		panicked := ""
+		func() {
+			// (in the agent a panic here ends the process: requests are served on bare goroutines)
+			defer func() {
+				if e := recover(); e != nil {
+					panicked = fmt.Sprint(e)
+				}
+			}()
+			h.ServeHTTP(rec, req)
+		}()
 		mu.Unlock()
-		o := verifC10Obs{Status: rec.Code, ClientSet: rec.Header().Values("Set-Cookie")}
+		o := verifC10Obs{Status: rec.Code, ClientSet: rec.Header().Values("Set-Cookie"), Panic: panicked}
 		for _, c := range (&http.Response{Header: rec.Header()}).Cookies() {
 			if c.Name == cookieName {
 				o.IssuedValue = c.Value
